@@ -121,7 +121,7 @@ def kat_prop(prop, extra_quick=(), extra_thorough=()):
             for fam in ("gift_cipher::", "speck_cipher::", "threefish::Threefish256", "threefish::Threefish512"):
                 q.append(J(tgt, "kat", ["--prop", prop, "--filter", fam, "--routes", "new,new_with_tweak_u64"] + extra, nshards=1, scale=0.0002, timeout=2400))
     # thorough native volume: a multiple of the 30k keys per type/route of the base budget
-    ts = {"C05": 6.0, "C06": 8.0, "C08": 6.0, "C09": 6.0, "C07": 3.0}.get(prop, 1.0)
+    ts = {"C05": 16.0, "C06": 16.0, "C08": 16.0, "C09": 12.0, "C07": 4.0}.get(prop, 1.0)
     t = [J("dev", "kat", ["--prop", prop], nshards=16, scale=ts), J("rel", "kat", ["--prop", prop], nshards=16, scale=ts),
          J("devfast", "kat", ["--prop", prop], nshards=16, scale=ts),
          J("miri-x64", "kat", ["--prop", prop, "--no-shadow", "--sample-mod", "4"], nshards=4, scale=0.0004, timeout=3000),
@@ -350,7 +350,7 @@ PROPS["C13"] = {
     "quick": [J("dev", "weak", nshards=4), J("rel", "weak", nshards=2), J("soft", "weak", ["--no-shadow"], nshards=2),
               J("miri-x64", "weak", ["--no-shadow", "--sample-mod", "16"], nshards=2, scale=0.002, timeout=2400),
               J("miri-s390x", "weak", ["--filter", "des::"], nshards=3, scale=0.002, timeout=2400)],
-    "thorough": [J("dev", "weak", nshards=16, scale=6.0), J("rel", "weak", nshards=16, scale=6.0), J("soft", "weak", nshards=8, scale=3.0),
+    "thorough": [J("dev", "weak", nshards=16, scale=16.0), J("rel", "weak", nshards=16, scale=16.0), J("soft", "weak", nshards=8, scale=6.0),
                  J("miri-x64", "weak", ["--no-shadow", "--sample-mod", "4"], nshards=4, scale=0.0005, timeout=3000),
                  J("miri-s390x", "weak", ["--sample-mod", "4"], nshards=4, scale=0.0005, timeout=3000)],
     "rule": ("keys per type: AES every single-bit and single-zero-bit key, upper-half-zero with class-generated lower half, neighbours; DES the 64 NIST keys "
